@@ -218,6 +218,18 @@ func init() {
 		"internal/race.Read", "internal/race.Write", "internal/race.ReadRange", "internal/race.WriteRange"} {
 		m[n] = noop
 	}
+	m["(*sync.Once).Do"] = func(in *Interp, fr *Frame, args []Value, call *ssa.CallCommon) Value {
+		p := args[0].(Ptr)
+		if p.obj == nil {
+			panic(in.rtPanic("invalid memory address or nil pointer dereference"))
+		}
+		if d := p.obj.cells[p.off].(*Term); d.IsConst() && d.val == 0 {
+			in.callValue(args[1], nil, fr, nil)
+			in.writeCheck(p.obj)
+			p.obj.cells[p.off] = mkBV(32, 1)
+		}
+		return nil
+	}
 	m["(*sync.Mutex).TryLock"] = func(in *Interp, fr *Frame, args []Value, call *ssa.CallCommon) Value { return tTrue }
 	m["internal/abi.NoEscape"] = func(in *Interp, fr *Frame, args []Value, call *ssa.CallCommon) Value { return args[0] }
 	m["internal/abi.Escape"] = func(in *Interp, fr *Frame, args []Value, call *ssa.CallCommon) Value { return args[0] }
